@@ -1,0 +1,12 @@
+//go:build verif
+
+// Machine-checked contracts (comment-only; compiled only under the build tag "verif").
+package cloneset
+
+// C07 (F25): the number of updated pods a batch waits for can be reached: it never exceeds the size of the workload,
+// whatever integer the step carries (the partition-style and the blue-green Deployment variants clamp it as well).
+//@ func (*realController).CalculateBatchContext
+//@ props C07
+//@ requires rc != nil && release != nil && rc.object != nil && rc.WorkloadInfo != nil && rc.Replicas >= 0
+//@ requires 0 <= release.Status.CanaryStatus.CurrentBatch && release.Status.CanaryStatus.CurrentBatch < len(release.Spec.ReleasePlan.Batches)
+//@ ensures reachable_target: result1 == nil ==> result0 != nil && result0.DesiredUpdatedReplicas <= rc.Replicas && result0.PlannedUpdatedReplicas <= rc.Replicas
